@@ -415,8 +415,14 @@ class C09(core.Check):
             return self.judge_subst(case)
         c = gen_case(random.Random(case['s']), inline=case['inline'])
         opts = dict(lang=case['lang'], pack=case['pack'])
+        cnt = {}
+        if case['s'] % 5 == 3:
+            # the special macros and comments switched off: no influence on definitions, from whatever source
+            opts['nosp'] = True
         cnt = {'inline' if c.inline else 'routes': 1, 'calls': c.n_calls, 'unknown_uses': c.n_unknown_uses,
                'default_used': c.n_default, 'nested_calls': c.n_nested}
+        if opts.get('nosp'):
+            cnt['with_no_specials'] = 1
         nt = c.n_calls > 0
         if c.inline:
             (t, p), e = tex.run(c.B, **opts)
@@ -482,7 +488,7 @@ class C09(core.Check):
                     obs=dict(D=tex.short(D, 200), B=tex.short(B, 150), plain=tex.short(t2, 120)))
 
     def quotas(self, tier):
-        return {'definitions_mid_document': 300, 'subst_definer': 300, 'subst_optional_given': 300, 'subst_optional_default': 200, 'subst_cases': 3000, 'subst_inner': 500, 'subst_arg': 500, 'subst_arg_ends_with_control_word': 500, 'routes': 2000, 'inline': 500, 'ltinput_twice': 300, 'calls': 5000, 'unknown_uses': 100, 'default_used': 300,
+        return {'definitions_mid_document': 300, 'subst_definer': 300, 'subst_optional_given': 300, 'subst_optional_default': 200, 'subst_cases': 3000, 'subst_inner': 500, 'subst_arg': 500, 'subst_arg_ends_with_control_word': 500, 'routes': 2000, 'with_no_specials': 300, 'inline': 500, 'ltinput_twice': 300, 'calls': 5000, 'unknown_uses': 100, 'default_used': 300,
                 'nested_calls': 500}
 
 
